@@ -88,6 +88,28 @@ func genPublishOpts(g *scriptGen, nPuppets int, allowDisclose bool) map[string]a
 	return o
 }
 
+// withPPT adds payload passthru options to some publications (only for publishers that announced the
+// feature): the router copies them into EVENT.Details, and into nobody else's events.
+func withPPT(g *scriptGen, o map[string]any, allowDisclose bool) map[string]any {
+	r := g.rng
+	if !chance(r, 12) {
+		return o
+	}
+	o["ppt_scheme"] = pick(r, []string{"x_custom", "mqtt"})
+	o["ppt_serializer"] = "native"
+	if chance(r, 60) {
+		o["ppt_keyid"] = fmt.Sprintf("key-%d", r.IntN(1000))
+	}
+	if chance(r, 40) {
+		o["ppt_cipher"] = "xsalsa20poly1305"
+	}
+	if !allowDisclose && chance(r, 50) {
+		o["disclose_me"] = true // refused in this realm: nothing of this publication may show up anywhere
+		o["acknowledge"] = true
+	}
+	return o
+}
+
 func runC01(c *Case) {
 	g := newScriptGen(c)
 	r := c.Rng
@@ -176,7 +198,7 @@ func runC01(c *Case) {
 					uri = pick(r, poolStrictNo)
 				}
 				args, kw := g.payload()
-				op = model.Op{Kind: model.OpPublish, P: p, Req: g.nextReq(p), URI: uri, Opts: genPublishOpts(g, len(run.W.Puppets), realm.AllowDisclose), Args: args, Kw: kw}
+				op = model.Op{Kind: model.OpPublish, P: p, Req: g.nextReq(p), URI: uri, Opts: withPPT(g, genPublishOpts(g, len(run.W.Puppets), realm.AllowDisclose), realm.AllowDisclose), Args: args, Kw: kw}
 			case x < 95:
 				if len(run.W.Puppets) < 10 {
 					ps := randomPuppet(r, realm.Name, netPct)
